@@ -125,12 +125,13 @@ func (s *Sim) Do(pid, kind string, arg int64) error {
 // seated-in players with chips).
 func (s *Sim) StartFirst(participants []string) bool {
 	s.Drain()
+	s.backlog = nil
 	if !s.FirstGame {
 		if err := s.API.StartTableGame(); err != nil {
 			s.Stall = "StartTableGame: " + err.Error()
 			return false
 		}
-		if ev := s.WaitFor(s.StepWait, func(ev *Event) bool { return ev.Kind == "firstgame" }); ev == nil {
+		if ev := s.waitForD(s.StepWait, func(ev *Event) bool { return ev.Kind == "firstgame" }); ev == nil {
 			s.Stall = "no first-game callback"
 			return false
 		}
@@ -154,7 +155,7 @@ func (s *Sim) SetupGate(participants []string) bool {
 		s.Stall = "SetUpTableGame: " + err.Error()
 		return false
 	}
-	if ev := s.WaitFor(s.StepWait, func(ev *Event) bool { return ev.Kind == "gate" }); ev == nil {
+	if ev := s.waitForD(s.StepWait, func(ev *Event) bool { return ev.Kind == "gate" }); ev == nil {
 		s.Stall = "no gate fence after SetUpTableGame"
 		return false
 	}
@@ -232,7 +233,7 @@ func (s *Sim) PlayHand(plan SignalPlan) *Hand {
 	deadline := time.Now().Add(s.openWait(plan))
 	var ev *Event
 	for ev == nil && time.Now().Before(deadline) {
-		ev = s.WaitFor(50*time.Millisecond, func(ev *Event) bool {
+		ev = s.waitForD(50*time.Millisecond, func(ev *Event) bool {
 			if ev.Kind == "error" {
 				return true
 			}
@@ -271,7 +272,7 @@ func (s *Sim) PlayHand(plan SignalPlan) *Hand {
 // DriveHand plays an already opened hand to the fence.
 func (s *Sim) DriveHand(h *Hand) *Hand {
 	for steps := 0; steps < 5000; steps++ {
-		ev := s.Next(s.StepWait)
+		ev := s.nextD(s.StepWait)
 		if ev == nil {
 			h.Outcome = "stall"
 			s.Stall = fmt.Sprintf("no event for %v during hand %d (last status %s)", s.StepWait, h.N, s.LastStatus)
@@ -307,6 +308,13 @@ func (s *Sim) DriveHand(h *Hand) *Hand {
 			default:
 				continue
 			}
+			// the same decision point may be delivered twice (a hook that re-published the
+			// engine's current snapshot raced with the engine's own notification)
+			key := fmt.Sprintf("%s/%d/%d/%s/%d", gs.GameID, gs.UpdatedAt, gs.Status.CurrentPlayer, gs.Status.CurrentEvent, len(gs.Players[0].AllowedActions))
+			if key == s.lastDecisionKey {
+				continue
+			}
+			s.lastDecisionKey = key
 			if s.Resync {
 				// after a concurrent burst several snapshots are queued: only the one the
 				// engine is actually waiting at is a decision point
@@ -349,7 +357,7 @@ func (s *Sim) awaitFence(h *Hand) *Hand {
 	if s.Cfg.Interval > 0 {
 		wait += time.Duration(s.Cfg.Interval) * time.Second
 	}
-	ev := s.WaitFor(wait, func(ev *Event) bool {
+	ev := s.waitForD(wait, func(ev *Event) bool {
 		if ev.Kind == "gate" || ev.Kind == "autoend" {
 			return true
 		}
@@ -384,6 +392,13 @@ func (s *Sim) awaitFence(h *Hand) *Hand {
 
 func (s *Sim) handleDecision(h *Hand, d *Decision) bool {
 	gs := d.GS
+	// The first request of a hand can be published while startGame (holding the engine
+	// lock) has not returned yet: wait until the engine is really waiting for input.
+	if h.Decisions <= 1 {
+		for i := 0; i < 4000 && !pokertable.VerifTryLock(s.TE); i++ {
+			time.Sleep(250 * time.Microsecond)
+		}
+	}
 	switch d.Kind {
 	case "ready", "ante", "blinds":
 		want := "ready"
